@@ -23,6 +23,7 @@ type histCase struct {
 	Edits       [][]string `json:"edits"` // descriptions, informational
 	MemSrc      bool       `json:"memsrc"`
 	MemLinkFull bool       `json:"memlinkfull"`
+	ReadStyle   int        `json:"readstyle,omitempty"`
 	DiffNone    []bool     `json:"diffnone"` // per re-sync
 	Capacity    int        `json:"capacity"`
 	Filter      int        `json:"filter"` // receiver filter: 0 none, 1 owner->0:0, 2 owner->1000:1001
@@ -58,7 +59,8 @@ func genHist(t *rapid.T, allowDiffNone bool) *histCase {
 	c.DstViaLink = rapid.IntRange(0, 4).Draw(t, "dstvialink") == 0
 	c.MemLinkFull = rapid.IntRange(0, 3).Draw(t, "memlinkfull") != 0
 	c.Capacity = rapid.SampledFrom([]int{0, 1, 8, 64}).Draw(t, "cap")
-	c.Filter = rapid.SampledFrom([]int{0, 0, 0, 1, 2}).Draw(t, "filter")
+	c.Filter = rapid.SampledFrom([]int{0, 0, 0, 1, 2, 3}).Draw(t, "filter")
+	c.ReadStyle = rapid.IntRange(0, 3).Draw(t, "readstyle")
 	return c
 }
 
@@ -100,7 +102,7 @@ func isRegular(st *types.Stat) bool { return os.FileMode(st.Mode)&os.ModeType ==
 func runResync(env *h.Env, srcTree *h.Tree, c *histCase, step int, diffNone bool, dstDir string, notify bool) (*resyncObs, error) {
 	var f fsutil.FS
 	if c.MemSrc {
-		f = &h.MemFS{T: srcTree, LinkSizeFull: c.MemLinkFull}
+		f = &h.MemFS{T: srcTree, LinkSizeFull: c.MemLinkFull, ReadStyle: c.ReadStyle}
 	} else {
 		srcDir := filepath.Join(env.Scratch, fmt.Sprintf("src%d", step))
 		if err := os.Mkdir(srcDir, 0o755); err != nil {
